@@ -1504,3 +1504,29 @@ Theorem weak_sandbox_leaks :
   q_log (get_req 1 (c_w (poll_task_weak 1 1 c))) = [(9, 8, 2, (-1)%Z, (-1)%Z, 22%Z)] /\
   q_log (get_req 1 (c_w (poll_task true 1 1 c))) = [(9, 8, 2, (-1)%Z, (-1)%Z, (-1)%Z)].
 Proof. vm_compute. split; reflexivity. Qed.
+
+(** (c) the server-function handler of the integrations as it was coded before the repair of
+    F-C20-b: the owner of such a request was `Owner::new()`, i.e. a *child of whichever owner is
+    ambient* on the handling thread, not a root.  Next to a page request whose root is ambient,
+    the body of the server function (though inside `owner.with(ScopedFuture ..)`) observes the
+    page request's owner and root context, and dropping the page's root runs the cleanup the
+    server function registered.  With a root of its own ([start], the repaired code) it sees
+    its own owner and nothing of request 1. *)
+Definition start_child (sb : bool) (r : rid) (c : cfg) : cfg :=
+  let q := get_req r (c_w c) in
+  mkCfg (set_req r (mkReq (q_prog q) (q_ngates q) true false [] [] 
+                          [mkTask (if sb then Some (a_arena (c_amb c)) else None) (q_prog q)] [] 0 [] [])
+                 (c_w c))
+        (c_amb c).
+
+Definition sfn_progs : list (list instr * nat) :=
+  [([IWith (1, 0) [IAct (AProvide 0 101)]], 0);
+   ([IChild [IScoped WCapture [IAct (AOnCleanup 7); IAct (AProbe 1 10 None)]]], 0)].
+
+Theorem server_fn_child_owner_leaks : forall sb,
+  let c0 := run_sched sb [SStart 1; SPoll 1 0] (init_world sfn_progs) in
+  q_log (get_req 2 (c_w (poll_task sb 2 0 (start_child sb 2 c0)))) = [(1, 10, 1, 101%Z, (-1)%Z, (-9)%Z)] /\
+  q_clog (get_req 1 (c_w (drop_req sb 1 (poll_task sb 2 0 (start_child sb 2 c0))))) = [(7%Z, 1)] /\
+  q_log (get_req 2 (c_w (poll_task sb 2 0 (start sb 2 c0)))) = [(1, 10, 2, (-1)%Z, (-1)%Z, (-9)%Z)] /\
+  q_clog (get_req 1 (c_w (drop_req sb 1 (poll_task sb 2 0 (start sb 2 c0))))) = [].
+Proof. intros [|]; vm_compute; repeat split. Qed.
